@@ -80,6 +80,10 @@ func (h *clientConnectionHandler) onConnectionAcceptRequested(client *CqlClientC
 		log.Trace().Msgf("%v: client accept requested: %v", h, clientAddr)
 		h.connectionsLock.Lock()
 		defer h.connectionsLock.Unlock()
+		if h.isClosed() {
+			// closed while this goroutine was waiting for the lock: nobody would ever close the new holder's channel
+			return nil, fmt.Errorf("%v: handler closed", h)
+		}
 		holder, found := h.connections[clientAddr]
 		if !found {
 			log.Trace().Msgf("%v: client address unknown, registering new channel: %v", h, clientAddr)
@@ -106,6 +110,11 @@ func (h *clientConnectionHandler) onConnectionAccepted(connection *CqlServerConn
 		verifPoint("connections.accepted.beforeLock")
 		h.connectionsLock.Lock()
 		defer h.connectionsLock.Unlock()
+		if h.isClosed() {
+			// closed while this goroutine was waiting for the lock: the channels are gone (a send on the nil-ed
+			// anyConnChan would block forever, with the lock held)
+			return fmt.Errorf("%v: handler closed", h)
+		}
 		holder, found := h.connections[clientAddr]
 		if found {
 			holder.conn = connection
